@@ -4,9 +4,13 @@ import FfcxModel.Codegen.Block
 import FfcxModel.Codegen.Spec
 import FfcxModel.Codegen.Partition
 import FfcxModel.Codegen.Definitions
+import FfcxModel.Codegen.SpecLink
+import FfcxModel.Geometry.Quad
 
 namespace Ffcx.Driver
 open Ffcx Ffcx.LNodes Ffcx.Codegen
+
+def cgB (k : String) (b : Bool) : Sexp := .list [.atom k, Sexp.ofBool b]
 
 namespace CG
 
@@ -51,13 +55,17 @@ def readArg (s : Sexp) : Except String ArgDesc := do
   | .list [.atom "arg", t, r] => return { table := ← readTRef t, restriction := ← readRestr r }
   | _ => throw s!"bad arg {s.toStr.take 80}"
 
-/-- `(block (ttype…) (arg…) nFactorComps factorIndex afp transposed f)` -/
+/-- `(block (ttype…) (arg…) nFactorComps factorIndex afp transposed f [(maIndex…)])` -/
 def readBlock (s : Sexp) : Except String BlockData := do
   match s with
   | .list [.atom "block", tts, args, nfc, fi, afp, tr, f] =>
     return { ttypes := ← (← tts.asList).mapM Sexp.asAtom, args := ← (← args.asList).mapM readArg,
              nFactorComps := ← nfc.asNat, factorIndex := ← fi.asNat, allFactorsPiecewise := ← afp.asBool,
              transposed := ← tr.asBool, f := ← readExpr f }
+  | .list [.atom "block", tts, args, nfc, fi, afp, tr, f, ma] =>
+    return { ttypes := ← (← tts.asList).mapM Sexp.asAtom, args := ← (← args.asList).mapM readArg,
+             nFactorComps := ← nfc.asNat, factorIndex := ← fi.asNat, allFactorsPiecewise := ← afp.asBool,
+             transposed := ← tr.asBool, f := ← readExpr f, maIndices := ← (← ma.asList).mapM Sexp.asNat }
   | _ => throw s!"bad block {s.toStr.take 80}"
 
 /-- `(group rule custom entityType diagonal (aShape…) (bmLen…) (block…))` -/
@@ -288,5 +296,160 @@ def handlePrefixWf (args : List Sexp) : Except String Sexp := do
       .list [.atom "fwdecls", Sexp.ofBool (fwDeclsOk fw)],
       .list [.atom "fwlinked", Sexp.ofBool (fwLinkedB fw st gs)]]
   | _ => throw "prefix_wf: expected (prefix_wf (dname…) (fw…) (i0…) (group…) state)"
+
+/-! graphs (same wire format as `driver_ir`) -/
+
+def cgParseKind (s : Sexp) : Except String IR.Kind := do
+  match s with
+  | .atom "zero" => pure .zero
+  | .atom "sum" => pure .sum
+  | .atom "prod" => pure .prod
+  | .atom "div" => pure .div
+  | .atom "conj" => pure .conj
+  | .atom "real" => pure .real
+  | .atom "imag" => pure .imag
+  | .atom "abs" => pure .abs
+  | .atom "cond" => pure .cond
+  | .list [.atom "arg", p, n] => pure (.arg (← p.asNat) (← n.asNat))
+  | .list [.atom "term", i] => pure (.term (← i.asNat))
+  | .list [.atom "int", v] => pure (.lit true (← v.asRat))
+  | .list [.atom "float", v] => pure (.lit false (← v.asRat))
+  | .list [.atom "complex", a, b] => pure (.clit (← a.asRat) (← b.asRat))
+  | .list [.atom "condition", n] => pure (.condition (← n.asAtom))
+  | .list [.atom "op", n] => pure (.op (← n.asAtom))
+  | _ => throw s!"bad kind {s}"
+
+def cgParseNode (s : Sexp) : Except String IR.Node := do
+  match s with
+  | .list (.atom "n" :: k :: ds) => pure { kind := ← cgParseKind k, deps := ← ds.mapM Sexp.asNat }
+  | _ => throw "bad node"
+
+def cgParseGraph (s : Sexp) : Except String IR.Graph := do
+  match s with
+  | .list [.atom "graph", .list (.atom "nodes" :: ns), .list (.atom "targets" :: ts)] =>
+    let nodes ← ns.mapM cgParseNode
+    let targets ← ts.mapM fun t => do
+      match t with
+      | .list (i :: cs) => pure (← i.asNat, ← cs.mapM Sexp.asNat)
+      | _ => throw "bad target"
+    pure { nodes := nodes.toArray, targets }
+  | _ => throw "expected (graph (nodes …) (targets …))"
+
+/-- `(spec_link S rank F (group…) state ((pos arg len number)…) entityType ((pnode…)…))` →
+    the decidable links of `kernel_meets_spec_linked` / `partition_values_partial` -/
+def handleSpecLink (args : List Sexp) : Except String Sexp := do
+  match args with
+  | [sg, rk, fg, gs, st, tab, et, parts] =>
+    let S ← cgParseGraph sg
+    let F ← cgParseGraph fg
+    let gs ← (← gs.asList).mapM readGroup
+    let st ← readState st
+    let tab ← (← tab.asList).mapM (fun e => do
+      match e with
+      | .list [p, a, l, n] => pure ({ pos := ← p.asNat, arg := ← readArg a, len := ← l.asNat, number := ← n.asNat } : ArgInfoD)
+      | _ => throw "bad argtable entry")
+    let parts ← (← parts.asList).mapM (fun p => do (← p.asList).mapM readPNode)
+    let r := specLink S (← rk.asNat) F.nodes st gs tab (← et.asAtom) parts
+    return .list [.atom "ok", cgB "accepted" r.accepted, cgB "wf" r.wf, cgB "closedF" r.closedF,
+      cgB "fEqual" r.fEqual, cgB "oneTarget" r.oneTarget, cgB "perm" r.perm, cgB "argLinks" r.argLinks,
+      cgB "pnodes" r.pnodes]
+  | _ => throw "spec_link: expected (spec_link S rank F groups state argtable entityType partitions)"
+
+/-- `(blockmap_check group (((int…)…)…))`: per block, per argument the real `blockmap[i]` tuple must be
+    `[aCoord a len d | d < len]` — the arithmetic progression `offset + block_size·d` the specification uses -/
+def handleBlockmapCheck (args : List Sexp) : Except String Sexp := do
+  match args with
+  | [g, bms] =>
+    let g ← readGroup g
+    let bms ← (← bms.asList).mapM (fun b => do (← b.asList).mapM (fun r => do (← r.asList).mapM Sexp.asInt))
+    let ok := g.blocks.length == bms.length &&
+      (g.blocks.zip bms).all (fun (b, bm) =>
+        b.args.length == bm.length && bm.length == g.bmLens.length &&
+        ((b.args.zip g.bmLens).zip bm).all (fun ((a, n), real) =>
+          real == (List.range n).map (fun (d : Nat) => a.table.blockSize * (d : Int) + a.table.offset) &&
+          a.table.ndofs == n))
+    return .list [.atom "ok", Sexp.ofBool ok]
+  | _ => throw "blockmap_check: expected (blockmap_check group blockmaps)"
+
+/-- `(values_link F (group…) state ((i expr)…) (pw…) (i0…) (fw…) ((name (dim…))…) nEnt nPerm)` →
+    the decidable value / extent links of `kernel_meets_spec_checked` on one real quadrature loop -/
+def handleValuesLink (args : List Sexp) : Except String Sexp := do
+  match args with
+  | [fg, gs, st, acc, pw, i0, fw, shapes, nEnt, nPerm] =>
+    let F := (← cgParseGraph fg).nodes
+    let gs ← (← gs.asList).mapM readGroup
+    let st ← readState st
+    let sc ← (← acc.asList).mapM (fun e => do
+      match e with
+      | .list [i, ex] => pure ((← i.asNat), (← readExpr ex))
+      | _ => throw "bad access entry")
+    let pw ← (← pw.asList).mapM readStmt
+    let i0 ← (← i0.asList).mapM readStmt
+    let fw ← (← fw.asList).mapM readStmt
+    let shapes ← (← shapes.asList).mapM (fun e => do
+      match e with
+      | .list [n, ds] => pure ((← n.asAtom), (← (← ds.asList).mapM Sexp.asNat))
+      | _ => throw "bad shape entry")
+    let nEnt ← nEnt.asNat
+    let nPerm ← nPerm.asNat
+    let decls := declsOf pw ++ declsOf i0
+    let blocks := allBlocks st gs
+    let cone := coneOf F (blocks.map (fun t => t.2.1.factorIndex))
+    let bad := (cone.eraseDups.filter (fun i => !nodeEqB F sc decls i)).map (fun i =>
+      match F[i]? with
+      | some nd => (match nd.kind with
+        | .arg .. => "arg" | .term _ => "term" | .zero => "zero" | .lit .. => "lit" | .clit .. => "clit"
+        | .sum => "sum" | .prod => "prod" | .div => "div" | .conj => "conj" | .real => "real"
+        | .imag => "imag" | .abs => "abs" | .cond => "cond" | .condition c => c | .op c => c)
+      | none => "out-of-range")
+    let nw := match gs with | g :: _ => g.rule.nweights | [] => 0
+    let (e0, e1) := match gs with
+      | g :: _ => (match g.aShape with | [a, b] => (a, b) | _ => (0, 0))
+      | [] => (0, 0)
+    return .list [.atom "ok",
+      cgB "values" (valuesLinkB F sc decls fw st gs),
+      cgB "cone" (coneOkB F sc decls cone),
+      cgB "fws" (blocks.all (fwFactorB fw sc)),
+      cgB "extents" (gs.all (fun g => g.blocks.all (fun b => b.args.all
+        (extentsOkB shapes g.entityType nw nEnt nPerm)))),
+      cgB "rank2" (rank2GroupsB e0 e1 gs),
+      cgB "closedR" (IR.closedB F),
+      .list [.atom "conesize", .atom (toString cone.eraseDups.length)],
+      .list (.atom "bad" :: bad.eraseDups.map Sexp.atom)]
+  | _ => throw "values_link: expected (values_link F groups state access pw i0 fw shapes nEnt nPerm)"
+
+/-- `(diag_pair groupFull groupDiag|none)`: the diagonal kernel's group is the full kernel's group
+    restricted to the blocks with coincident block maps, and the dropped blocks have disjoint maps
+    (hypotheses of `diagonal_of_full_filtered`) -/
+def handleDiagPair (args : List Sexp) : Except String Sexp := do
+  match args with
+  | [gf, gd] =>
+    let gF ← readGroup gf
+    let gD ← match gd with
+      | .atom "none" => pure { gF with diagonal := true, blocks := [] }
+      | g => readGroup g
+    let dropped := gF.blocks.filter (fun b => !coincidentBlock b)
+    let (n0, n1) := match gF.bmLens with | [a, b] => (a, b) | _ => (0, 0)
+    return .list [.atom "ok",
+      cgB "pair" (diagonalPairB gF gD),
+      cgB "sublist" (decide (gD.blocks.map (fun b => (b.args, b.factorIndex)) =
+        (gF.blocks.filter coincidentBlock).map (fun b => (b.args, b.factorIndex)))),
+      cgB "disjoint" (dropped.all (disjointMapsB n0 n1)),
+      cgB "injective" (injectiveBlocks gF),
+      .list [.atom "kept", .atom (toString (gF.blocks.length - dropped.length))],
+      .list [.atom "dropped", .atom (toString dropped.length)]]
+  | _ => throw "diag_pair: expected (diag_pair groupFull groupDiag|none)"
+
+/-- `(tensor_rule (((p…) w)…) …)`: the tensor product (`Ffcx.Quad.tensor2`, folded from the right as
+    `itertools.product` enumerates) of the factor rules, exactly over `Rat` → `(ok ((p…) w)…)` -/
+def handleTensorRule (args : List Sexp) : Except String Sexp := do
+  let rules ← args.mapM (fun r => do
+    (← r.asList).mapM (fun pw => do
+      match pw with
+      | .list [ps, w] => pure ((← (← ps.asList).mapM Sexp.asRat), (← w.asRat))
+      | _ => throw "bad rule entry"))
+  let unit : Quad.Rule Rat := [([], 1)]
+  let prod := rules.foldr (fun r acc => Quad.tensor2 r acc) unit
+  return .list (.atom "ok" :: prod.map (fun pw => .list [.list (pw.1.map Sexp.ofRat), Sexp.ofRat pw.2]))
 
 end Ffcx.Driver
